@@ -199,6 +199,13 @@ func BatchedWriter.runBatchWriter$1
   modifies ghost(nreset), ghost(nwrite), ghost(wmuts), ghost(pending), ghost(ndone), ghost(donelog), ghost(ncommit), ghost(ncancel), ghost(commitok), ghost(storefailed)
   ghost after call BatchCollector.Commit: storefailed = storefailed || result != nil
   ghost before call BatchCollector.Add: assume objectToPersist != nil     -- only Enqueue sends, and it has called a method on the object
+  -- every wait of the collector runs against a started time-out timer, whatever the configured time-out (0 included: the
+  -- timer then fires at once): a partial batch cannot sit in the collector forever
+  ghost local timerlive Bool
+  ghost at entry: timerlive = false
+  ghost after call NewTimer: timerlive = true
+  ghost before select: assert timerlive
+  loop 1 invariant timerlive
   loop 1 invariant !storefailed && *batchCollector == old(*batchCollector) && *shouldFlush == old(*shouldFlush) && !(*batchCollector).committed
   loop 1 invariant 0 <= (*batchCollector).writtenValuesCounter && (*batchCollector).writtenValuesCounter < len((*batchCollector).writtenValues) && len((*batchCollector).writtenValues) == (*batchCollector).batchSize
   loop 1 invariant pending == (*batchCollector).writtenValuesCounter
